@@ -57,6 +57,26 @@ func (sc *subscriptionCancellations) Cancel(id string) (ok bool) {
 	return true
 }
 
+// CancelOwn cancels and removes the subscription registered under id, provided that ctx, the context
+// AddWithParent returned for it, has not been cancelled yet. Registrations are only ever cancelled
+// with the lock held, so a live ctx proves that the id still belongs to its subscription; once ctx is
+// cancelled the id may have been taken by a new subscription, which is left alone.
+func (sc *subscriptionCancellations) CancelOwn(id string, ctx context.Context) (ok bool) {
+	sc.mu.Lock()
+	defer sc.mu.Unlock()
+	if ctx.Err() != nil {
+		return false
+	}
+	cancelFunc, ok := sc.cancellations[id]
+	if !ok {
+		return false
+	}
+
+	cancelFunc()
+	delete(sc.cancellations, id)
+	return true
+}
+
 func (sc *subscriptionCancellations) CancelAll() {
 	// We have full control over the cancellation functions (see AddWithParent()), so
 	// it's fine to invoke them with the lock held
